@@ -6,4 +6,4 @@ Set Extraction KeepSingleton.
 Extraction "model_ptr.ml"
   Z.add Z.sub Z.mul Z.div Z.modulo Z.abs Z.opp Z.leb Z.ltb Z.eqb Z.of_nat Z.to_nat Z.of_N Z.to_N
   errno jv
-  ptr_get ptr_getf ptr_set ptr_setf ptr_step ptr_get_internal ptr_set_with_array_cb subst_at.
+  ptr_get ptr_getf ptr_get_out ptr_getf_out ptr_set ptr_setf ptr_step ptr_get_internal ptr_set_with_array_cb subst_at.
